@@ -171,3 +171,79 @@ class ImplicitEuler(_Implicit):
 class TrapezoidalRule(_Implicit):
     name, func = 'fn:trapezoidal_rule', 'trapezoidal_rule'
     loop_ordinals = {0: 'i in range(len(step_sizes))'}
+
+
+# ----------------------------------------------------------------------------------------------------------------------
+# error estimators: read-only over a given trajectory
+
+class _Errors(Contract):
+    file, cls = FILE, None
+    props = ('C09',)
+    uses_heap = True
+    list_kinds = {'errors': 'num'}
+
+    def state_pred(self, ref, state):
+        return state_ok(ref, state.old['operator'])
+
+    def setup(self, ex, state, inst):
+        m0 = ex.ctx.mark0
+        op = mk_tt(state, 'operator', m0)
+        n = fresh('nstates')
+        sol = SList(fresh('solution_ref'), n, fn=sym_elem_fn('ttref', state), kind='ttref')
+        hs = SList(fresh('step_sizes_ref'), fresh('nsteps'), fn=sym_elem_fn('num', state), kind='num')
+        ex.ctx.heap_params = [sol]
+        return {'operator': op, 'solution': sol, 'step_sizes': hs}
+
+    def domain_extra(self, S):
+        sol, op, m0 = S.a['solution'], S.a['operator'], S.mark0
+        n = zi(sol.len_term())
+        # every state of the given trajectory is a valid TT vector on the operator's row dimensions, allocated before the call
+        yield 'states-well-formed', FA(0, n, lambda j: state_ok(heap.ref_at(sol, j), op))
+        yield 'alloc:states', FA(0, n, lambda j: z3.And(heap.TOP(heap.ref_at(sol, j)) <= m0, heap.BOT(heap.ref_at(sol, j)) >= 0))
+
+    def requires(self, S):
+        op, sol, hs = S.a['operator'], S.a['solution'], S.a['step_sizes']
+        d = zi(op.order)
+        yield 'square-operator', square(op)
+        yield 'boundary-ranks-1', boundary_one(op)
+        # derived from the loop: step_sizes[i] is read for every i < len(solution) - 1
+        yield 'enough-step-sizes', zi(hs.len_term()) >= zi(sol.len_term()) - 1
+        jx = fresh('jx')
+        yield 'state-dimension>=2', z3.Exists([jx], z3.And(0 <= jx, jx < d, lst_get(op.row_dims, jx) >= 2))
+
+    def ensures(self, S, res):
+        ok = isinstance(res, SList)
+        yield 'returns-list', ok
+        if ok:
+            n = zi(S.o['solution'].len_term())
+            yield 'one-defect-per-step', zi(res.len_term()) == z3.If(n >= 1, n - 1, 0)
+            yield 'list-fresh', res.ref >= S.mark0
+
+    def canary(self, S, res):
+        return zi(res.len_term()) == zi(S.o['solution'].len_term()) if isinstance(res, SList) else None
+
+    def invariant(self, key, inst):
+        if key != 'i in range(len(solution) - 1)':
+            return None
+
+        def inv(V, i, k):
+            e = V['errors']
+            yield 'errors', z3.And(zi(e.len_term()) == zi(i), e.ref >= V.mark0)
+        return inv
+
+    loop_ordinals = {0: 'i in range(len(solution) - 1)'}
+
+
+@register
+class ErrorsExplEuler(_Errors):
+    name, func = 'fn:errors_expl_euler', 'errors_expl_euler'
+
+
+@register
+class ErrorsImplEuler(_Errors):
+    name, func = 'fn:errors_impl_euler', 'errors_impl_euler'
+
+
+@register
+class ErrorsTrapezoidal(_Errors):
+    name, func = 'fn:errors_trapezoidal', 'errors_trapezoidal'
